@@ -14,9 +14,66 @@ def _calls(node, attr):
             isinstance(n.func, ast.Attribute) and n.func.attr == attr]
 
 
+def _guard_only(test, node):
+    """the test looks only at node._p_jar / _p_oid / _p_serial (against None)"""
+    for n in ast.walk(test):
+        if isinstance(n, ast.Attribute):
+            if not (isinstance(n.value, ast.Name) and n.value.id == node and
+                    n.attr in ("_p_jar", "_p_oid", "_p_serial")):
+                return False
+        elif isinstance(n, ast.Name) and n.id != node:
+            return False
+        elif isinstance(n, ast.Call):
+            return False
+    return True
+
+
+def _declares(stmts, node, whole=False):
+    """Do the statements declare `node` as read on every path that is not cut
+    short by a guard on node's jar / oid / serial?  -> True / False
+    whole: nothing but the declaration (a helper's body)"""
+    for i, st in enumerate(stmts):
+        if whole and i < len(stmts) - 1 and not (
+                isinstance(st, ast.Expr) and isinstance(st.value, ast.Constant)) and not (
+                isinstance(st, ast.If) and not st.orelse and len(st.body) == 1 and
+                isinstance(st.body[0], ast.Return)):
+            return False
+        if isinstance(st, ast.Expr) and isinstance(st.value, ast.Constant):
+            continue
+        if isinstance(st, ast.Expr) and isinstance(st.value, ast.Call):
+            c = st.value
+            if isinstance(c.func, ast.Attribute) and c.func.attr == "readCurrent" and \
+                    pyfront.unparse(c.func.value) == "%s._p_jar" % node and \
+                    len(c.args) == 1 and pyfront.unparse(c.args[0]) == node:
+                return True
+            return False
+        if isinstance(st, ast.If) and _guard_only(st.test, node):
+            body_ret = len(st.body) == 1 and isinstance(st.body[0], ast.Return) and st.body[0].value is None
+            if body_ret and not st.orelse:
+                continue                      # guard clause: not stored -> nothing to declare
+            if _declares(st.body, node) and not st.orelse:
+                return True                   # if stored: declare
+            return False
+        return False
+    return False
+
+
+def declaring_helpers(tree):
+    """module-level functions / methods f(node) whose whole effect is the
+    guarded read declaration of their parameter"""
+    out = set()
+    for fn in ast.walk(tree):
+        if isinstance(fn, ast.FunctionDef) and fn.args.args:
+            node = fn.args.args[0].arg
+            if _declares(fn.body, node, whole=True) and _calls(fn, "readCurrent"):
+                out.add(fn.name)
+    return out
+
+
 def check(res):
     tree = pyfront.module(REL)
     cls = pyfront.classes(tree)
+    helpers = declaring_helpers(tree)
     descents = 0
     rc_sites = []
     for cname, c in cls.items():
@@ -24,6 +81,8 @@ def check(res):
             if not isinstance(fn, ast.FunctionDef):
                 continue
             rcs = _calls(fn, "readCurrent")
+            if mname in helpers:
+                continue
             for r in rcs:
                 rc_sites.append(("%s.%s" % (cname, mname), r))
             ds = [c2 for a in ("_set", "_del") for c2 in _calls(fn, a)
@@ -33,6 +92,19 @@ def check(res):
             # position of the first top-level statement that registers the read
             rc_index = None
             for i, st in enumerate(fn.body):
+                if isinstance(st, ast.Expr) and isinstance(st.value, ast.Call):
+                    c3 = st.value
+                    nm = c3.func.id if isinstance(c3.func, ast.Name) else (
+                        c3.func.attr if isinstance(c3.func, ast.Attribute) else None)
+                    argself = (len(c3.args) == 1 and pyfront.unparse(c3.args[0]) == "self") or (
+                        isinstance(c3.func, ast.Attribute) and pyfront.unparse(c3.func.value) == "self"
+                        and not c3.args)
+                    if nm in helpers and argself:
+                        rc_index = i
+                        break
+                if isinstance(st, ast.If) and _declares([st], "self"):
+                    rc_index = i
+                    break
                 if isinstance(st, ast.If) and _calls(st, "readCurrent") and not st.orelse:
                     conj = st.test.values if isinstance(st.test, ast.BoolOp) and \
                         isinstance(st.test.op, ast.And) else [st.test]
@@ -80,7 +152,26 @@ def check(res):
                 construct="readCurrent in %s" % where,
                 detail="%s does not write but declares a read dependency" % where,
                 path=[]))
+    # a declaring helper may only be called from methods that descend writes
+    for cname, c in cls.items():
+        for mname, fn in pyfront.class_members(c).items():
+            if not isinstance(fn, ast.FunctionDef) or mname in helpers:
+                continue
+            for c3 in ast.walk(fn):
+                if isinstance(c3, ast.Call):
+                    nm = c3.func.id if isinstance(c3.func, ast.Name) else (
+                        c3.func.attr if isinstance(c3.func, ast.Attribute) else None)
+                    if nm in helpers:
+                        n += 1
+                        if "%s.%s" % (cname, mname) not in ok_methods:
+                            res.findings.add(dict(
+                                rule="PY-READCUR-NEVER", function="%s.%s" % (cname, mname), file=REL,
+                                line=c3.lineno, construct="readCurrent (through %s) in %s.%s" % (nm, cname, mname),
+                                detail="%s.%s does not write but declares a read dependency" % (cname, mname),
+                                path=[]))
     for fn in pyfront.functions(tree).values():
+        if fn.name in helpers:
+            continue
         for r in _calls(fn, "readCurrent"):
             res.findings.add(dict(
                 rule="PY-READCUR-NEVER", function=fn.name, file=REL, line=r.lineno,
